@@ -44,6 +44,9 @@ func (p *churnPath) counts() (int, int) {
 	return len(p.got), len(p.dead)
 }
 
+// churnWait: bound of one registry step (kill / spawn / restart) on the receiving system; generous
+const churnWait = 30 * time.Second
+
 type launchEv struct {
 	path       string
 	inc, epoch uint64
@@ -131,7 +134,7 @@ func (w *churnWorld) start() error {
 	}
 	select {
 	case <-ready:
-	case <-time.After(5 * time.Second):
+	case <-time.After(30 * time.Second):
 		return fmt.Errorf("churn: dead-letter observer did not start")
 	}
 	restart := vivid.OneForOneStrategy(vivid.SupervisionStrategyDecisionMakerFN(func(vivid.SupervisionContext) (vivid.SupervisionDecision, string) {
@@ -156,7 +159,7 @@ func (w *churnWorld) start() error {
 }
 
 func (w *churnWorld) awaitLaunch(ps *churnPath, inc, epoch uint64) bool {
-	dl := time.After(15 * time.Second)
+	dl := time.After(churnWait)
 	for {
 		select {
 		case e := <-w.launched:
@@ -186,7 +189,7 @@ func (w *churnWorld) spawn(ps *churnPath) lib.T {
 		w.B.Sys.Tell(w.host, m)
 		select {
 		case err = <-m.reply:
-		case <-time.After(15 * time.Second):
+		case <-time.After(churnWait):
 			err = fmt.Errorf("host actor did not answer")
 		}
 	}
@@ -204,9 +207,9 @@ func (w *churnWorld) kill(ps *churnPath, poison bool) lib.T {
 	w.B.Sys.Kill(ps.ref, poison, "xv: receiver churn")
 	gone := false
 	if ps.top {
-		gone = waitUntil(15*time.Second, func() bool { _, err := w.B.Sys.FindActor(ps.ref.String()); return err != nil })
+		gone = waitUntil(churnWait, func() bool { _, err := w.B.Sys.FindActor(ps.ref.String()); return err != nil })
 	} else {
-		dl := time.After(15 * time.Second)
+		dl := time.After(churnWait)
 	wait:
 		for {
 			select {
@@ -226,7 +229,7 @@ func (w *churnWorld) kill(ps *churnPath, poison bool) lib.T {
 		}
 	}
 	if !gone {
-		w.h.o.Monitor("harness-churn", lib.S(ps.path), fmt.Sprintf("the actor at %s did not terminate within 15 s after Kill", ps.path))
+		w.h.o.Monitor("harness-churn", lib.S(ps.path), fmt.Sprintf("the actor at %s did not terminate within 30 s after Kill", ps.path))
 		w.failed = true
 		return nil
 	}
@@ -238,7 +241,7 @@ func (w *churnWorld) kill(ps *churnPath, poison bool) lib.T {
 func (w *churnWorld) restart(ps *churnPath) lib.T {
 	w.B.Sys.Tell(ps.ref, &churnCrash{})
 	if !w.awaitLaunch(ps, ps.inc, ps.epoch+1) {
-		w.h.o.Monitor("harness-churn", lib.S(ps.path), fmt.Sprintf("the actor at %s was not restarted by its supervisor within 15 s", ps.path))
+		w.h.o.Monitor("harness-churn", lib.S(ps.path), fmt.Sprintf("the actor at %s was not restarted by its supervisor within 30 s", ps.path))
 		w.failed = true
 		return nil
 	}
@@ -273,7 +276,7 @@ func (w *churnWorld) traffic(tag string, conn *PConn, targets []*churnPath, r *l
 		marks[ps] = mk{g, d}
 	}
 	w.mu.Unlock()
-	waitUntil(time.Second, func() bool { return conn.Received() == conn.Pos() })
+	waitUntil(5*time.Second, func() bool { return conn.Received() == conn.Pos() })
 	rec0, _ := conn.Record()
 	askOK0 := w.A.AskOK.Load()
 	var exps []churnExp
@@ -419,7 +422,7 @@ func (w *churnWorld) traffic(tag string, conn *PConn, targets []*churnPath, r *l
 	if !complete {
 		return nil
 	}
-	waitUntil(time.Second, func() bool { return conn.Received() == conn.Pos() })
+	waitUntil(5*time.Second, func() bool { return conn.Received() == conn.Pos() })
 	rec, chunks := conn.Record()
 	var xs []lib.T
 	off := 0
@@ -458,7 +461,7 @@ func (w *churnWorld) scenario(idx int, seed uint64, mode, randMax, nrandom int, 
 	}
 	mB := mark(w.B)
 	conn := w.B.Proxy.Conns(0)[mB.conns-1]
-	waitUntil(time.Second, func() bool { return conn.Received() == conn.Pos() })
+	waitUntil(5*time.Second, func() bool { return conn.Received() == conn.Pos() })
 	rec0, _ := conn.Record()
 	recStart := len(rec0)
 	mk := func(nm string, top bool) *churnPath {
